@@ -1,7 +1,7 @@
 (* Props/C17.v — History and status tell the truth about the ledger.
    Only statements, each closed by [exact]; proofs live in Lemmas/. *)
 From Model Require Import Examples.
-From Lemmas Require Import StatusLemmas LedgerLemmas.
+From Lemmas Require Import StatusLemmas LedgerLemmas HistoryLemmas.
 From Corr Require Import Chain.
 Open Scope Z_scope.
 
@@ -28,6 +28,88 @@ Print Assumptions C17_effects_only_when_executed.
 Theorem C17_paging_exact : forall (A : Type) (l : list A) (lim : nat), (0 < lim)%nat -> pages (S (length l)) l 0 lim = l.
 Proof. exact @paging_exact. Qed.
 Print Assumptions C17_paging_exact.
+
+
+(* ---- the credited amounts are the recorded amounts ---------------------------------------------------------
+   [row_effect burn r] is what an EXECUTED history row stands for (transfer: -from_amount on the sender,
+   +amount on each output that is not the burn address; conversion: -from_amount of the source asset,
+   +to_amount of the destination asset (+ the recorded refund outputs); coinbase / burn: +to_amount);
+   [rows_effect burn a t rows] sums it on the cell (a, t).  Whenever a batch is recorded, its rows carry
+   the converted amounts, every batch row of that hash says "executed at h", no other history row moves,
+   and EVERY cell moves by exactly what the rows of the batch stand for. *)
+Theorem C17_recorded_amounts_are_the_credited_amounts : forall c h hs rates avgs txs s s',
+  record_batch c h hs rates avgs txs s = Ok s' ->
+  no_deferred c h txs = true ->                 (* no bank-era PEG request in the batch (those are paid by the bank pass) *)
+  convs_fit c h rates avgs txs = true ->        (* converted amounts are int64 values (implied by non-negative rates) *)
+  rows_of hs (htxs s) = map fst (history_rows_of hs txs) ->   (* the rows as insert_history left them *)
+  rows_of hs (htxs s') = exec_rows c h rates avgs hs 0 txs /\
+  rows_not hs (htxs s') = rows_not hs (htxs s) /\
+  hist s' = match txs with [] => hist s | _ => mark_exec hs h (hist s) end /\
+  (forall a t, get_bal (bal s') a t =
+               get_bal (bal s) a t + rows_effect (burn_addr c h) a t (rows_of hs (htxs s'))).
+Proof. exact record_batch_history. Qed.
+Print Assumptions C17_recorded_amounts_are_the_credited_amounts.
+
+(* arrival path: a transfer-only batch not seen before is either executed -- rows, status h and every cell
+   accounted for -- or stays as inserted with status 0 / -1 and no cell moves *)
+Theorem C17_arriving_batch_history : forall c h s order e txs s',
+  apply_entry c h s order e = Ok s' ->
+  entry_valid_at c e h = Some txs ->
+  is_replay s (e_hash e) = false -> hist_has s (e_hash e) = false ->
+  has_conversions txs = false -> rows_of (e_hash e) (htxs s) = [] ->
+  rows_not (e_hash e) (htxs s') = rows_not (e_hash e) (htxs s) /\
+  ( ( txs <> [] /\
+      rows_of (e_hash e) (htxs s') = exec_rows c h ∅ ∅ (e_hash e) 0 txs /\
+      hist s' = hist s ++ [batch_row e h order h] /\
+      forall a t, get_bal (bal s') a t =
+                  get_bal (bal s) a t + rows_effect (burn_addr c h) a t (rows_of (e_hash e) (htxs s')) )
+    \/
+    ( rows_of (e_hash e) (htxs s') = pend_rows (e_hash e) 0 txs /\ bal s' = bal s /\
+      (hist s' = hist s ++ [batch_row e h order 0] \/ hist s' = hist s ++ [batch_row e h order (-1)]) ) ).
+Proof. exact apply_entry_history. Qed.
+Print Assumptions C17_arriving_batch_history.
+
+(* holding path: a held batch looked at by a rated block is either executed with the full accounting, or no
+   row and no cell moves and its status is left alone or set to a negative code *)
+Theorem C17_held_batch_history : forall c cur rates avgs s e hh s' isp txs,
+  apply_held c cur rates avgs s e hh = Ok (s', isp) ->
+  entry_valid_at c e hh = Some txs ->
+  no_deferred c cur txs = true -> convs_fit c cur rates avgs txs = true ->
+  rows_of (e_hash e) (htxs s) = map fst (history_rows_of (e_hash e) txs) ->
+  isp = false /\
+  ( ( apply_batch c cur s (e_hash e) txs rates avgs = BApplied s' /\
+      rows_of (e_hash e) (htxs s') = exec_rows c cur rates avgs (e_hash e) 0 txs /\
+      rows_not (e_hash e) (htxs s') = rows_not (e_hash e) (htxs s) /\
+      hist s' = match txs with [] => hist s | _ => mark_exec (e_hash e) cur (hist s) end /\
+      forall a t, get_bal (bal s') a t =
+                  get_bal (bal s) a t + rows_effect (burn_addr c cur) a t (rows_of (e_hash e) (htxs s')) )
+    \/
+    ( htxs s' = htxs s /\ bal s' = bal s /\
+      (hist s' = hist s \/ exists code, code < 0 /\ hist s' = mark_exec (e_hash e) code (hist s)) ) ).
+Proof. exact apply_held_history. Qed.
+Print Assumptions C17_held_batch_history.
+
+(* the coinbase-style writers: the rows they append account for every cell they move *)
+Theorem C17_rewards_history : forall s ts ws s',
+  pay_winners s ts ws = Ok s' -> payouts_fit ws = true ->
+  htxs s' = htxs s ++ winner_rows ws /\ hist s' = hist s ++ winner_batches ts ws /\
+  forall burn a t, get_bal (bal s') a t = get_bal (bal s) a t + rows_effect burn a t (winner_rows ws).
+Proof. exact pay_winners_history. Qed.
+Print Assumptions C17_rewards_history.
+Theorem C17_burns_history : forall h s fs s',
+  apply_factoid_block h s fs = Ok s' ->
+  htxs s' = htxs s ++ burn_rows fs /\ hist s' = hist s ++ burn_batches h fs /\
+  forall burn a t, get_bal (bal s') a t = get_bal (bal s) a t + rows_effect burn a t (burn_rows fs).
+Proof. exact apply_factoid_block_history. Qed.
+Print Assumptions C17_burns_history.
+(* developer rewards and staking payouts: Lemmas/HistoryLemmas.v *)
+Check developers_payouts_history.
+Check snapshot_payouts_history.
+(* the hypotheses are satisfiable on the example chain *)
+Check record_batch_history_hyps.
+Check apply_entry_history_hyps.
+Check apply_held_history_hyps.
+Check pay_winners_history_hyps.
 
 (* replaying the recorded history reproduces the balances: checked on the model's own example ... *)
 Example C17_history_replays_on_the_model :
